@@ -34,6 +34,18 @@ Obligations and witness keys
 * ``rt/chunked_sampling/equals_whole_map``        e2e: ``map_shape, grid, order, depth, coordsys, data_kind,
   pio_format, parallel, tile, tile_missing, n_bad, first_bad, observed, expected``.
 * ``rt/filtered_sampling/runs`` / ``rt/filtered_sampling/terminates``  exception / watchdog in an e2e run.
+* Entry points: every function that accepts a tile filter must honour the statement in both coordinate systems.  The e2e
+  runs above call ``toast.sample_layer_filtered`` directly (``entry`` = direct, key absent from the witness).  The "entry"
+  runs repeat them through ``Builder.toast_base(sampler, depth, tile_filter=...)`` with ``entry`` in
+  ``builder`` (defaults = astronomical) | ``builder_is_planet`` (is_planet=True) | ``builder_coordsys`` (coordsys=...),
+  one Builder object for all chunks of a map, and add plain lat/lon boxes (``samplers._latlon_tile_filter`` + a sampler
+  that has data inside the box only), all four combinations {astronomical, planetary} x {Builder, direct}:
+  ``rt/box_filtered_sampling/equals_unfiltered``  e2e: ``lon_min, lon_max, lat_min, lat_max, width, family, map_shape, coordsys,
+  depth, pio_format, parallel, data_seed, [entry], tile, tile_missing, n_bad, first_bad, observed, expected``;
+  ``rt/builder_box_filtered_sampling/equals_unfiltered``, ``rt/builder_wcs_filtered_sampling/equals_unfiltered``,
+  ``rt/builder_chunked_sampling/equals_whole_map``: keys of the direct obligation + ``entry``;
+  ``rt/builder_filtered_sampling/runs`` | ``terminates``.  A watchdog expiry of a group of entry runs (several runs share
+  one interpreter) is reported as a note (undecided), not as a violation.
 
 Bounds
 ------
@@ -48,8 +60,10 @@ quick   : 160 boxes (any origin in [-4pi,4pi] +- 6pi, widths 1e-4 .. 3pi, poles,
           tiles to depth 3 + 6 border probes per chunk to depth 9); e2e: 8 WCS images (footprint
           20..70 deg) at depth 2..3 in fits/npy with 1..3 workers, 5 chunked maps (rgb->png,
           f32->npy/fits, u8->npy) at depth 1..2 in random chunk order.
+          entry points: 2 boxes (one across the wrap seam) x 4 combinations, 1 chunked map x 3 Builder variants,
+          1 WCS image x 2 Builder variants (depth 1..2, 4 interpreters).
 thorough: 900 + 2000 boxes (all tiles to depth 4, seeds to depth 15), 400 + 4000 images, 60 chunk
-          grids, e2e 40 + 24.
+          grids, e2e 40 + 24; entry points: 12 boxes x 4, 8 maps x 3, 8 images x 2.
 Not explored: 8-bit greyscale maps into a PNG pyramid (the PNG 'L' round trip breaks the second
 update of a tile -- an image-mode issue outside this property's quantifier); non-TAN projections.
 
@@ -725,6 +739,125 @@ def read_display(path, ext):
         return np.asarray(im_)
 
 
+def _sample_filtered(cfg, state, pio, filt, sampler, depth, cs, parallel):
+    """The call under test: ``toast.sample_layer_filtered`` itself (entry 'direct') or ``Builder.toast_base`` with a
+    ``tile_filter`` -- one Builder per pyramid (kept in ``state``), as a user driving several chunks would."""
+    from toasty import toast
+    entry = cfg.get("entry") or "direct"
+    if entry == "direct":
+        toast.sample_layer_filtered(pio, filt, sampler, depth, coordsys=cs, parallel=parallel)
+        return
+    from toasty.builder import Builder
+    b = state.get("builder")
+    if b is None:
+        b = state["builder"] = Builder(pio)
+    if entry == "builder_is_planet":
+        if cfg["coordsys"] != "planetary":
+            raise ValueError("entry builder_is_planet is the planetary system")
+        b.toast_base(sampler, depth, is_planet=True, tile_filter=filt, parallel=parallel)
+    elif entry == "builder_coordsys":
+        b.toast_base(sampler, depth, coordsys=cs, tile_filter=filt, parallel=parallel)
+    elif entry == "builder":
+        if cfg["coordsys"] != "astronomical":
+            raise ValueError("entry builder (defaults) is the astronomical system")
+        b.toast_base(sampler, depth, tile_filter=filt, parallel=parallel)
+    else:
+        raise ValueError(entry)
+
+
+def make_box_sampler(data, box):
+    """sampler(lon, lat) -> float32: the plate-carree map ``data`` (lon -pi at the left edge, lat +pi/2 at the top) inside
+    the lat/lon box, undefined (NaN) outside -- a data set that only exists in the box."""
+    H, W = data.shape
+    sx, sy = TWOPI / W, math.pi / H
+    lon_min, lon_max, lat_min, lat_max = box
+    width = lon_max - lon_min
+
+    def sampler(lon, lat):
+        lon = np.asarray(lon, dtype=np.float64)
+        lat = np.asarray(lat, dtype=np.float64)
+        ix = np.clip(np.floor(((lon + math.pi) % TWOPI) / sx).astype(int), 0, W - 1)
+        iy = np.clip(np.floor((math.pi / 2 - lat) / sy).astype(int), 0, H - 1)
+        out = data[iy, ix].astype(np.float32)
+        ok = (lat >= lat_min) & (lat <= lat_max)
+        if width < TWOPI:
+            ok &= ((lon - lon_min) % TWOPI) <= width
+        out[~ok] = np.nan
+        return out
+
+    return sampler
+
+
+def e2e_box(cfg):
+    """Filtered sampling with a plain lat/lon box filter against unfiltered sampling of the same data set (oracle: own
+    pixel centres, interval arithmetic; pixels within 2e-9 rad of the box boundary or 1e-6 cells of a cell boundary skipped)."""
+    import traceback
+    import warnings
+    warnings.simplefilter("ignore")
+    from toasty import toast, samplers
+    from toasty.pyramid import PyramidIO
+    bx = cfg["box"]
+    box = (bx["lon_min"], bx["lon_max"], bx["lat_min"], bx["lat_max"])
+    H, W = cfg["map_shape"]
+    planetary = cfg["coordsys"] == "planetary"
+    cs = toast.ToastCoordinateSystem.PLANETARY if planetary else toast.ToastCoordinateSystem.ASTRONOMICAL
+    rng = np.random.default_rng(cfg["data_seed"])
+    data = (rng.random((H, W)) * 100 + 1).astype(np.float32)
+    pio = PyramidIO(cfg["workdir"], default_format=cfg["pio_format"])
+    depth = cfg["depth"]
+    try:
+        _sample_filtered(cfg, {}, pio, samplers._latlon_tile_filter(*box), make_box_sampler(data, box), depth, cs, cfg["parallel"])
+    except BaseException as e:
+        return {"problems": [{"obligation": "rt/filtered_sampling/runs", "error": "%s: %s" % (type(e).__name__, e),
+                              "where": traceback.format_exc().strip().splitlines()[-3:]}], "tiles": 0}
+    problems = []
+    ext = cfg["pio_format"]
+    sx, sy = TWOPI / W, math.pi / H
+    width = box[1] - box[0]
+    n_tiles = n_data = 0
+    for y in range(2 ** depth):
+        for x in range(2 ** depth):
+            lon, lat = centres(depth, x, y, planetary)
+            ins = in_box(lon, lat, box)
+            amb = (np.abs(lat - box[2]) < 2 * EPS_BOX) | (np.abs(lat - box[3]) < 2 * EPS_BOX)
+            if width < TWOPI:
+                d = (lon - box[0]) % TWOPI
+                amb |= (d < 2 * EPS_BOX) | (np.abs(d - width) < 2 * EPS_BOX) | (d > TWOPI - 2 * EPS_BOX)
+            fx = ((lon + math.pi) % TWOPI) / sx
+            fy = (math.pi / 2 - lat) / sy
+            amb |= (np.abs(fx - np.round(fx)) < 1e-6) | (np.abs(fy - np.round(fy)) < 1e-6)
+            ix = np.clip(np.floor(fx).astype(int), 0, W - 1)
+            iy = np.clip(np.floor(fy).astype(int), 0, H - 1)
+            exp = np.full((256, 256), np.nan, np.float32)
+            exp[ins] = data[iy[ins], ix[ins]]
+            p = os.path.join(cfg["workdir"], tile_relpath(depth, x, y, ext))
+            missing = not os.path.exists(p)
+            obs = np.full((256, 256), np.nan, np.float32) if missing else read_display(p, ext)
+            n_tiles += 1
+            n_data += int(ins.any())
+            same = (obs == exp) | (np.isnan(obs) & np.isnan(exp)) | amb
+            if not same.all():
+                i, j = np.argwhere(~same)[0]
+                problems.append({"obligation": "rt/box_filtered_sampling/equals_unfiltered", "tile": [depth, x, y], "tile_missing": missing,
+                                 "n_bad": int((~same).sum()), "first_bad": [int(i), int(j)], "observed": float(obs[i, j]),
+                                 "expected": float(exp[i, j])})
+    return {"problems": problems, "tiles": n_tiles, "tiles_with_data": n_data}
+
+
+_E2E = {"wcs": "e2e_wcs", "chunks": "e2e_chunks", "box": "e2e_box"}
+
+
+def e2e_group(cfg):
+    """Several e2e runs in one interpreter: cfg = {"kind", "base": cfg without entry/coordsys, "combos": [[entry, coordsys]...],
+    "workdir"}.  -> {"runs": [result per combo]}"""
+    fn = globals()[_E2E[cfg["kind"]]]
+    runs = []
+    for k, (entry, coordsys) in enumerate(cfg["combos"]):
+        c = dict(cfg["base"], entry=entry, coordsys=coordsys, workdir=os.path.join(cfg["workdir"], "c%d" % k))
+        runs.append(fn(c))
+    return {"runs": runs}
+
+
 def e2e_wcs(cfg):
     import traceback
     import warnings
@@ -741,7 +874,7 @@ def e2e_wcs(cfg):
     pio = PyramidIO(cfg["workdir"], default_format=cfg["pio_format"])
     depth = cfg["depth"]
     try:
-        toast.sample_layer_filtered(pio, ws.filter(), ws.sampler(), depth, coordsys=cs, parallel=cfg["parallel"])
+        _sample_filtered(cfg, {}, pio, ws.filter(), ws.sampler(), depth, cs, cfg["parallel"])
     except BaseException as e:
         return {"problems": [{"obligation": "rt/filtered_sampling/runs", "error": "%s: %s" % (type(e).__name__, e),
                               "where": traceback.format_exc().strip().splitlines()[-3:]}], "tiles": 0}
@@ -794,10 +927,11 @@ def e2e_chunks(cfg):
     sampler = samplers.ChunkedPlateCarreeSampler(fc, planetary=True)
     pio = PyramidIO(cfg["workdir"], default_format=cfg["pio_format"])
     depth = cfg["depth"]
+    state = {}
     for k, ic in enumerate(cfg["order"]):
         try:
-            toast.sample_layer_filtered(pio, sampler.filter(ic), sampler.sampler(ic), depth, coordsys=cs,
-                                        parallel=cfg["parallel"][k % len(cfg["parallel"])])
+            _sample_filtered(cfg, state, pio, sampler.filter(ic), sampler.sampler(ic), depth, cs,
+                             cfg["parallel"][k % len(cfg["parallel"])])
         except BaseException as e:
             return {"problems": [{"obligation": "rt/filtered_sampling/runs", "ichunk": ic, "error": "%s: %s" % (type(e).__name__, e),
                                   "where": traceback.format_exc().strip().splitlines()[-3:]}], "tiles": 0}
@@ -885,6 +1019,62 @@ def gen_e2e(rng, thorough):
     return out
 
 
+def gen_entry_groups(seed, thorough):
+    """Entry-point groups (own generator: the older case streams stay as they were).
+    -> [(kind, base cfg, [[entry, coordsys]...])]"""
+    import random
+    rng = random.Random("c07/entry/%s" % seed)
+    four = [["builder_is_planet", "planetary"], ["direct", "planetary"], ["builder", "astronomical"], ["direct", "astronomical"]]
+    four_b = [["builder_coordsys", "planetary"], ["direct", "planetary"], ["builder_coordsys", "astronomical"], ["direct", "astronomical"]]
+    out = []
+    n_box, n_chunk, n_wcs = (12, 8, 8) if thorough else (2, 1, 1)
+    boxes = [b for b in gen_boxes(rng, 40) if b["family"] in ("random", "wide", "pole_n", "pole_s", "seam", "big_origin") and
+             b["lat_max"] - b["lat_min"] > 0.2]
+    for i in range(n_box):
+        if i == 0:
+            bx = {"lon_min": -0.9, "lon_max": 0.7, "lat_min": -0.5, "lat_max": 0.85, "width": 1.6, "family": "seam"}    # across lon = 0
+        elif i == 2:
+            bx = {"lon_min": math.pi - 0.6, "lon_max": math.pi + 0.8, "lat_min": -1.2, "lat_max": 0.1, "width": 1.4, "family": "seam"}
+        else:
+            bx = boxes[i % len(boxes)]
+        out.append(("box", {"box": bx, "map_shape": [rng.choice([45, 90, 97]), rng.choice([90, 180, 211])], "depth": 2 if (i % 3 or not thorough) else 3,
+                            "pio_format": "npy" if i % 2 == 0 else "fits", "parallel": [1, 2, 1, 3][i % 4], "data_seed": rng.randrange(10 ** 6)},
+                    four if i % 2 == 0 else four_b))
+    for i in range(n_chunk):
+        m = gen_map(rng, i)
+        while m["H"] * m["W"] < 400 or (len(m["ycuts"]) - 1) * (len(m["xcuts"]) - 1) < 2:
+            m = gen_map(rng, i)
+        nchunks = (len(m["ycuts"]) - 1) * (len(m["xcuts"]) - 1)
+        order = list(range(nchunks))
+        rng.shuffle(order)
+        kind = ["f32", "rgb", "u8"][i % 3]
+        out.append(("chunks", {"map": m, "depth": 1 + (i % 2), "data_kind": kind, "pio_format": {"rgb": "png", "f32": ["npy", "fits"][i % 2], "u8": "npy"}[kind],
+                               "parallel": [1, 2] if i % 2 else [1], "order": order, "grid": [m["ycuts"], m["xcuts"]]},
+                    [["builder_is_planet", "planetary"], ["builder_coordsys", "planetary"], ["builder", "astronomical"]]))
+    wcs = [cfg for kind, cfg in gen_e2e(rng, True) if kind == "wcs" and cfg["image"]["family"] in ("degree", "seam")]
+    for i in range(n_wcs):
+        cfg = dict(wcs[i % len(wcs)])
+        cfg.pop("coordsys")
+        cfg["depth"] = min(cfg["depth"], 2)
+        out.append(("wcs", cfg, [["builder_is_planet", "planetary"], ["builder", "astronomical"]] if i % 2 == 0 else
+                    [["builder_coordsys", "planetary"], ["builder_coordsys", "astronomical"]]))
+    return out
+
+
+def _box_witness(cfg):
+    w = dict(cfg["box"])
+    w.update({"map_shape": cfg["map_shape"], "coordsys": cfg["coordsys"], "depth": cfg["depth"], "pio_format": cfg["pio_format"],
+              "parallel": cfg["parallel"], "data_seed": cfg["data_seed"]})
+    return w
+
+
+def _base_witness(kind, cfg):
+    w = {"wcs": _image_witness, "chunks": _chunk_witness, "box": _box_witness}[kind](cfg)
+    if (cfg.get("entry") or "direct") != "direct":
+        w["entry"] = cfg["entry"]
+    return w
+
+
 # ================================================================================================
 # driver
 
@@ -918,27 +1108,33 @@ def run_e2e(kind, cfg, workdir):
     c = dict(cfg)
     c["workdir"] = workdir
     t = 240
-    status, res, secs = call_isolated(MOD, "e2e_wcs" if kind == "wcs" else "e2e_chunks", {"cfg": c}, t)
+    status, res, secs = call_isolated(MOD, _E2E[kind], {"cfg": c}, t)
     return status, res, secs, t
 
 
 def judge_e2e(kind, cfg, status, res, t):
-    base = _image_witness(cfg) if kind == "wcs" else _chunk_witness(cfg)
+    base = _base_witness(kind, cfg)
+    via = (cfg.get("entry") or "direct") != "direct"
+    pre = "rt/builder_" if via else "rt/"
     if status == "timeout":
-        return [("rt/filtered_sampling/terminates", dict(base, timeout_s=t, kind=kind), "filtered sampling did not return within %d s" % t)]
+        return [(pre + "filtered_sampling/terminates", dict(base, timeout_s=t, kind=kind), "filtered sampling did not return within %d s" % t)]
     if status == "crash":
-        return [("rt/filtered_sampling/runs", dict(base, kind=kind, error="interpreter exited: " + str(res)[-500:]), "sampling process died")]
+        return [(pre + "filtered_sampling/runs", dict(base, kind=kind, error="interpreter exited: " + str(res)[-500:]), "sampling process died")]
     out = []
     for p in res["problems"]:
+        p = dict(p)
         obl = p.pop("obligation")
+        if via:
+            obl = obl.replace("rt/", "rt/builder_", 1)
         w = dict(base, kind=kind)
         w.update(p)
         if obl.endswith("/runs"):
             msg = "filtered sampling raised: %s" % p.get("error")
         else:
-            msg = "tile %s (%s): %s pixels differ from %s; first %s observed %s expected %s" % (
+            msg = "%stile %s (%s): %s pixels differ from %s; first %s observed %s expected %s" % (
+                ("%s, %s: " % (cfg["entry"], cfg["coordsys"])) if via else "",
                 p.get("tile"), "file missing, i.e. filtered out" if p.get("tile_missing") else "file present", p.get("n_bad"),
-                "unfiltered sampling" if kind == "wcs" else "whole-map sampling", p.get("first_bad"), p.get("observed"), p.get("expected"))
+                "unfiltered sampling" if kind != "chunks" else "whole-map sampling", p.get("first_bad"), p.get("observed"), p.get("expected"))
         out.append((obl, w, msg))
     return out
 
@@ -972,8 +1168,23 @@ def run(ctx):
     ctx.bound("end to end: %d WCS images (footprint 20..70 deg, depth 1..3, fits/npy, workers 1..3) and %d chunked maps (rgb->png, "
               "f32->npy/fits, depth 1..2, random chunk order) compared pixel by pixel"
               % (len([1 for k, _ in e2e if k == "wcs"]), len([1 for k, _ in e2e if k == "chunks"])))
+    groups = gen_entry_groups(ctx.seed, th)
+    ctx.bound("entry points, both coordinate systems: %d lat/lon boxes (one across lon = 0; depth 2..3, npy/fits, workers 1..3) x "
+              "{Builder.toast_base(is_planet=True | coordsys=...), sample_layer_filtered} x {planetary, astronomical}; %d chunked maps x "
+              "Builder.toast_base(is_planet=True | coordsys=PLANETARY | defaults), one Builder object for all chunks of a map; %d WCS images x "
+              "Builder (planetary, astronomical); %d sampling runs in %d interpreters, every tile compared pixel by pixel with unfiltered / "
+              "whole-map sampling" % (len([1 for g in groups if g[0] == "box"]), len([1 for g in groups if g[0] == "chunks"]),
+                                      len([1 for g in groups if g[0] == "wcs"]), sum(len(g[2]) for g in groups), len(groups)))
     per = {}
     t0 = time.time()
+    group_timeout = 400
+
+    def do_group(item):
+        i, (kind, base, combos) = item
+        wd = os.path.join(ctx.workdir, "g%03d" % i)
+        r = call_isolated(MOD, "e2e_group", {"cfg": {"kind": kind, "base": base, "combos": combos, "workdir": wd}}, group_timeout)
+        shutil.rmtree(wd, ignore_errors=True)
+        return i, r
 
     def do_part(p):
         name, fn, args, tmo = p
@@ -986,9 +1197,11 @@ def run(ctx):
         shutil.rmtree(wd, ignore_errors=True)
         return i, r
 
-    with ThreadPoolExecutor(max_workers=3) as ex1, ThreadPoolExecutor(max_workers=4) as ex2:
+    with ThreadPoolExecutor(max_workers=3) as ex1, ThreadPoolExecutor(max_workers=4) as ex2, ThreadPoolExecutor(max_workers=4) as ex3:
         fut_parts = [ex1.submit(do_part, p) for p in parts]
+        fut_groups = [ex3.submit(do_group, g) for g in enumerate(groups)]
         e2e_results = dict(ex2.map(do_e2e, list(enumerate(e2e))))
+        group_results = dict(f.result() for f in fut_groups)
         part_results = [f.result() for f in fut_parts]
 
     calls = 0
@@ -1021,6 +1234,29 @@ def run(ctx):
                         "depth": cfg["depth"], "parallel": cfg["parallel"]})
         for obl, w, msg in judge_e2e(kind, cfg, status, res, t):
             _report(ctx, per, obl, w, msg)
+    undecided = 0
+    n_runs = 0
+    for i, (kind, base, combos) in enumerate(groups):
+        status, res, secs = group_results[i]
+        if status == "timeout":
+            undecided += len(combos)
+            continue
+        for k, (entry, coordsys) in enumerate(combos):
+            cfg = dict(base, entry=entry, coordsys=coordsys)
+            ctx.case(("e2e-entry", kind, str(_base_witness(kind, cfg)), entry))
+            n_runs += 1
+            if status == "crash":
+                found = judge_e2e(kind, cfg, "crash", res, group_timeout) if k == 0 else []
+            else:
+                r = res["runs"][k]
+                tiles += r.get("tiles", 0)
+                found = judge_e2e(kind, cfg, "ok", r, group_timeout)
+            for obl, w, msg in found:
+                _report(ctx, per, obl, w, msg)
+        if i % 3 == 0 and status == "ok":
+            ctx.sample({"part": "e2e-entry-" + kind, "combos": combos, "tiles": [r.get("tiles") for r in res["runs"]], "depth": base["depth"]})
+    if undecided:
+        ctx.note("entry points: %d sampling runs sat in a group that did not finish within %d s: undecided" % (undecided, group_timeout))
     ctx.monitor("e2e_tiles_compared", tiles)
     ctx.note("e2e: %d runs, %d tiles compared; total %.1f s; problems per obligation: %s"
              % (len(e2e), tiles, time.time() - t0, {k: v for k, v in per.items() if isinstance(k, str)}))
@@ -1088,7 +1324,11 @@ def replay(obligation, witness):
     kind = witness.get("kind", "wcs" if "naxis1" in witness else "chunks")
     wd = tempfile.mkdtemp(prefix="c07_replay_")
     try:
-        if kind == "wcs":
+        if kind == "box":
+            cfg = {"box": {k: witness[k] for k in ("lon_min", "lon_max", "lat_min", "lat_max", "width", "family")}, "map_shape": witness["map_shape"],
+                   "coordsys": witness["coordsys"], "depth": witness["depth"], "pio_format": witness["pio_format"], "parallel": witness["parallel"],
+                   "data_seed": witness["data_seed"]}
+        elif kind == "wcs":
             im = {"n1": witness["naxis1"], "n2": witness["naxis2"], "crval": witness["crval"], "crpix": witness["crpix"], "cd": witness["cd"],
                   "rot_rad": witness.get("rot_rad"), "parity": witness.get("parity"), "family": witness.get("family")}
             cfg = {"image": im, "coordsys": witness["coordsys"], "depth": witness["depth"], "pio_format": witness["pio_format"],
@@ -1098,6 +1338,8 @@ def replay(obligation, witness):
             cfg = {"map": {"H": H, "W": W, "ycuts": witness["grid"][0], "xcuts": witness["grid"][1], "data_seed": witness["data_seed"]},
                    "coordsys": witness["coordsys"], "depth": witness["depth"], "data_kind": witness["data_kind"],
                    "pio_format": witness["pio_format"], "parallel": witness["parallel"], "order": witness["order"], "grid": witness["grid"]}
+        if witness.get("entry"):
+            cfg["entry"] = witness["entry"]
         status, res, secs, t = run_e2e(kind, cfg, os.path.join(wd, "p"))
     finally:
         shutil.rmtree(wd, ignore_errors=True)
